@@ -130,6 +130,32 @@ def gen_batch_api_scenario(rng, sid, cancel_after, end, fault=None):
     return sc
 
 
+def gen_abort_reenqueued_scenario(rng, sid, end_after, code=6, end="abort"):
+    """The application ends the transaction (without waiting for its sends) while a batch that already owns its
+    sequence numbers sits RE-ENQUEUED in the accumulator: the first Produce is answered with a retriable error and
+    the metadata refresh that follows is slow; the next transaction writes to the same partitions."""
+    partitions = rng.choice([1, 2])
+    brokers = rng.choice([1, 2])
+    tasks = [[{"p": 0, "sleep": 0, "n": rng.choice([1, 2, 3])}]]
+    if rng.random() < 0.5:
+        tasks.append([{"p": rng.randrange(partitions), "sleep": rng.choice([0, 0.001]), "n": 1}])
+    first = {"tasks": tasks, "offsets": None, "await_sends": False, "end": end, "pause": 0, "end_after": end_after}
+    second = {"tasks": [[{"p": q, "sleep": 0, "n": 2}] for q in range(partitions)],
+              "offsets": None, "await_sends": True, "end": "commit", "pause": 0}
+    faults = {"Produce:1": mk_fault("error", code)}
+    sc = {"id": sid, "seed": rng.randrange(1 << 30), "brokers": brokers, "partitions": partitions,
+          "marker_delay": 0.0, "linger_ms": 0, "max_batch_size": 16384, "request_timeout_ms": 2000,
+          "retry_backoff_ms": 20, "txn_coord": rng.randrange(brokers), "group_coord": rng.randrange(brokers),
+          "instances": [{"start_at": 0.0, "txns": [first, second]}],
+          "faults": faults, "moves": {}, "loading": {}, "kills": [], "quiet": 8.0,
+          "slow_metadata_after_fault": 0.25, "family": "end-while-batch-reenqueued"}
+    number_offsets(sc)
+    return sc
+
+
+REENQ_END_AFTER = [0.01, 0.025, 0.035, 0.05, 0.08, 0.15, 0.25, 0.4]
+
+
 PARKED_END_AFTER = [0.0005, 0.002, 0.003, 0.004, 0.005, 0.006, 0.0075, 0.009, 0.011, 0.014, 0.02]
 
 
@@ -588,6 +614,12 @@ def build_scenarios(ck):
             for fault in (mk_fault("delay", 0), mk_fault("error", 6), mk_fault("drop_after", 0))[:ck.n(2, 3)]:
                 scs.append(gen_batch_api_scenario(rng, sid, ca, end, fault))
                 sid += 1
+    # (d) commit / abort issued while a batch that was sent once sits re-enqueued (retriable Produce error, slow
+    #     metadata refresh)
+    for ea in REENQ_END_AFTER:
+        for end in ("abort", "commit"):
+            scs.append(gen_abort_reenqueued_scenario(rng, sid, ea, code=rng.choice([6, 3, 19]), end=end))
+            sid += 1
     return scs, sid, rng
 
 
